@@ -35,6 +35,14 @@ def SessTemplate.mk' (s : SessTemplate) (name : Name) : Level :=
   { name := name, prev := s.prev, esc := s.escPrefix ++ name, desc := s.desc, auth := false,
     pat := s.keyPrefix ++ String.ofList (name.toList.take s.keyTake), sess := s.sess }
 
+/-- the statements found in the platforms' `on_open` / `on_close` hooks (recovered from the AST) -/
+inductive HookStmt
+  | acquireDefault            -- conn.acquire_priv(desired_priv=conn.default_desired_privilege_level)
+  | command (line : Line)     -- conn.send_command(command=line)
+  | input (line : Line)       -- conn.channel.send_input(channel_input=line)
+  | raw (line : Line)         -- conn.channel.write(line); conn.channel.send_return()   (nothing is read)
+deriving Repr, DecidableEq
+
 /-- what is fixed for one connection -/
 structure Cfg where
   ord : Table → Name → List Name      -- Python's iteration order of the set `_priv_graph[a]` for table t
@@ -42,6 +50,8 @@ structure Cfg where
   secondary : Line := ""              -- auth_secondary
   abort : AbortSpec := .none
   sess : Option SessTemplate := none
+  onOpen : List HookStmt := []        -- the platform's on_open hook
+  onClose : List HookStmt := []       -- the platform's on_close hook
 
 inductive Kind | command | config | interactive
 deriving Repr, DecidableEq
@@ -318,6 +328,54 @@ def step (c : Cfg) (d : Dev σ) (w : W σ) : Op → W σ × Outcome
   | .interactive lines level => sendInteractive c d w lines level
   | .register name => registerSession c w name
   | .setGeneric v => (setGeneric w v, .ok)
+
+/-- one statement of an on_open / on_close hook.  Hook lines are recorded in the ghost log like
+    command lines: they are expected at the default desired level. -/
+def hookStmt (c : Cfg) (d : Dev σ) (w : W σ) : HookStmt → W σ × Outcome
+  | .acquireDefault => acquirePriv c d w c.default
+  | .command line => sendCommands c d w [line] false
+  | .input line =>
+    match sendLines d (some (some c.default, .command)) false [line] false w with
+    | (w, .ok _) => (w, .ok)
+    | (w, .error e) => (w, e)
+  | .raw line =>
+    match io d w.tbl w.ch line with
+    | (ch, none) => ({ w with ch := ch }, .connErr)
+    | (ch, some _) => ({ w with ch := ch, ulog := tagLog none w.ulog (d.mode w.ch.dev) line }, .ok)
+
+/-- a hook: its statements in order, the first exception ends it -/
+def runHook (c : Cfg) (d : Dev σ) : W σ → List HookStmt → W σ × Outcome
+  | w, [] => (w, .ok)
+  | w, st :: rest =>
+    match hookStmt c d w st with
+    | (w, .ok) => runHook c d w rest
+    | (w, e) => (w, e)
+
+/-- `Driver.close()` (base/sync_driver.py:120-145): the on_close hook, then — always — the transport is closed.
+    The belief (`_current_priv_level`) stays on the connection object. -/
+def closeConn (c : Cfg) (d : Dev σ) (w : W σ) : W σ × Outcome :=
+  match runHook c d w c.onClose with
+  | (w, o) => ({ w with ch := { w.ch with closed := true } }, o)
+
+/-- `Driver.open()` on the same object (:86-118): a new session on the device, then the on_open hook -/
+def openConn (c : Cfg) (d : Dev σ) (w : W σ) : W σ × Outcome :=
+  runHook c d { w with ch := { w.ch with dev := d.reset w.ch.dev, closed := false } } c.onOpen
+
+/-- operations of a connection's whole life: the C03 alphabet plus close / re-open of the same object -/
+inductive XOp
+  | op (o : Op)
+  | openConn
+  | closeConn
+deriving Repr, DecidableEq
+
+def xstep (c : Cfg) (d : Dev σ) (w : W σ) : XOp → W σ × Outcome
+  | .op o => step c d w o
+  | .openConn => openConn c d w
+  | .closeConn => closeConn c d w
+
+def xrun (c : Cfg) (d : Dev σ) : W σ → List XOp → W σ
+  | w, [] => w
+  | w, o :: os => xrun c d (xstep c d w o).1 os
 
 /-- a history of operations on one connection (exceptions are caught by the caller, the
     connection object lives on) -/
